@@ -38,6 +38,13 @@ func gstr(s string) string { return "\"" + strings.ReplaceAll(s, "\"", "\"\"") +
 
 func glist(items []string) string { return "[" + strings.Join(items, "; ") + "]" }
 
+func gbool(b bool) string {
+	if b {
+		return "true"
+	}
+	return "false"
+}
+
 func isLogCall(callee string) bool {
 	for _, suf := range []string{".Info", ".Infof", ".Debug", ".Debugf", ".Warn", ".Warnf", ".Error", ".Errorf"} {
 		if strings.HasSuffix(callee, suf) {
@@ -427,6 +434,83 @@ func genWiring(repo string) (string, error) {
 		sort.Strings(limUses)
 		fmt.Fprintf(&sb, "(* transport/transporters/kafka: the configured kafka-max-message-bytes on its way to its two consumers (the batches, which drop and count what is larger, and the sarama producer, which refuses what is larger): later writes to the variable it is read into; the calls / literals it is handed to (function, callee, \"plain\" = the bare variable); what is assigned to Producer.MaxMessageBytes *)\nDefinition kafka_limit_writes : list string := %s.\nDefinition kafka_limit_uses : list (string * string * string) := %s.\nDefinition kafka_producer_limit_assigned : list string := %s.\n(* the parameters of producerConfig, the fields of KafkaBatchFactory, the arguments of its NewKafkaBatch call, in order *)\nDefinition kafka_producer_config_params : list string := %s.\nDefinition kafka_batch_factory_fields : list string := %s.\nDefinition kafka_new_batch_args : list string := %s.\n\n", glist(limWrites), "["+strings.Join(limUses, "; ")+"]", glist(limProd), glist(prodParams), glist(facFields), glist(newBatchArgs))
 		fmt.Fprintf(&sb, "(* transport/transporters/kafka: assignments to the sarama producer configuration. RequiredAcks left alone is sarama's default WaitForLocal (the leader has written the message); NoResponse would make SendMessages succeed before any broker answered *)\nDefinition kafka_required_acks_assigned : list string := %s.\nDefinition kafka_return_successes : string := %s.\nDefinition kafka_return_errors : string := %s.\n\n", glist(acks), gstr(succ), gstr(errs))
+	}
+	// ---- every worker a sink factory returns is a value of its own, reading the queue of its index ----
+	// in transport/transporters/<sink>/factory.go, func New: every statement `<slice>[<i>] = &<v>` inside a for
+	// loop; is <v> declared (:= or var) inside that loop's body, and does the statement that gives it its value
+	// mention `inputChans[<i>]` with the same index
+	{
+		var rows []string
+		for _, sink := range []string{"kafka", "kinesis", "rabbitmq", "s3", "stdout"} {
+			fn := filepath.Join(repo, "transport/transporters", sink, "factory.go")
+			src, rerr := os.ReadFile(fn)
+			if rerr != nil {
+				return "", rerr
+			}
+			f, perr := parser.ParseFile(token.NewFileSet(), fn, src, 0)
+			if perr != nil {
+				return "", perr
+			}
+			found := false
+			for _, d := range f.Decls {
+				fd, ok := d.(*ast.FuncDecl)
+				if !ok || fd.Name.Name != "New" || fd.Body == nil {
+					continue
+				}
+				ast.Inspect(fd.Body, func(x ast.Node) bool {
+					loop, ok := x.(*ast.ForStmt)
+					if !ok {
+						return true
+					}
+					for _, st := range loop.Body.List {
+						as, ok := st.(*ast.AssignStmt)
+						if !ok || len(as.Lhs) != 1 || len(as.Rhs) != 1 {
+							continue
+						}
+						ix, ok1 := as.Lhs[0].(*ast.IndexExpr)
+						un, ok2 := as.Rhs[0].(*ast.UnaryExpr)
+						if !ok1 || !ok2 || un.Op != token.AND {
+							continue
+						}
+						v, idx := exprString(un.X), exprString(ix.Index)
+						local, ownQueue := false, false
+						for _, st2 := range loop.Body.List {
+							switch n := st2.(type) {
+							case *ast.AssignStmt:
+								if n.Tok == token.DEFINE && len(n.Lhs) >= 1 && exprString(n.Lhs[0]) == v {
+									local = true
+									ast.Inspect(n, func(y ast.Node) bool {
+										if e, ok := y.(*ast.IndexExpr); ok && exprString(e.X) == "inputChans" && exprString(e.Index) == idx {
+											ownQueue = true
+										}
+										return true
+									})
+								}
+							case *ast.DeclStmt:
+								if gd, ok := n.Decl.(*ast.GenDecl); ok {
+									for _, sp := range gd.Specs {
+										if vs, ok := sp.(*ast.ValueSpec); ok {
+											for _, nm := range vs.Names {
+												if nm.Name == v {
+													local = true
+												}
+											}
+										}
+									}
+								}
+							}
+						}
+						found = true
+						rows = append(rows, fmt.Sprintf("(%s, %s, %s)", gstr(sink), gbool(local), gbool(ownQueue)))
+					}
+					return true
+				})
+			}
+			if !found {
+				rows = append(rows, fmt.Sprintf("(%s, false, false)", gstr(sink)))
+			}
+		}
+		fmt.Fprintf(&sb, "(* transport/transporters/<sink>/factory.go, func New: for every `workers[i] = &v` in the worker loop: (sink, v is declared inside the loop body, the statement that defines v reads inputChans[i]) *)\nDefinition factory_workers : list (string * bool * bool) := [%s].\n\n", strings.Join(rows, "; "))
 	}
 	// ---- one shared termination signal: the handler is made once, in main, and only handed on ----
 	// every non-test, non-hook source file outside shutdown/ and main/ that fabricates a handler of its own
